@@ -23,6 +23,7 @@ import (
 	"github.com/ThreeDotsLabs/watermill"
 	"github.com/ThreeDotsLabs/watermill/message"
 
+	"wmverif/hookrt"
 	"wmverif/script"
 )
 
@@ -46,17 +47,23 @@ type wDelivery struct {
 	Pb      int    `json:"pb"`      // 0 accept, 1 error, 2 panic
 	Chain   int    `json:"chain"`   // >0: the message object is an output of an earlier delivery (carries router context keys)
 	Ctx     []int  `json:"ctx"`     // router keys the message context carries on arrival (interned), filled by the harness
+	UTag    int    `json:"utag"`    // user value in the arriving message's context (0 = none)
+	UCancel bool   `json:"ucancel"` // the arriving message's context is cancelled
 }
 
 type wOp struct {
-	K    string     `json:"k"` // addhandler addmw addhmw addpubdec addsubdec start deliver
-	H    *wHandler  `json:"h,omitempty"`
-	Name string     `json:"name,omitempty"` // addhmw: handler name
-	ID   int        `json:"id,omitempty"`   // middleware / decorator id
-	App  bool       `json:"app,omitempty"`  // middleware appends message 100+id to a successful result
-	D    *wDelivery `json:"d,omitempty"`
-	Grp  int        `json:"grp,omitempty"` // consecutive ops with the same non-zero grp are ONE variadic call / one concurrent batch
-	Dup  bool       `json:"dup,omitempty"` // addhandler: observed DuplicateHandlerNameError panic
+	K     string     `json:"k"` // addhandler addmw addhmw addpubdec addsubdec start deliver
+	H     *wHandler  `json:"h,omitempty"`
+	Name  string     `json:"name,omitempty"` // addhmw: handler name
+	ID    int        `json:"id,omitempty"`   // middleware / decorator id
+	App   bool       `json:"app,omitempty"`  // middleware appends message 100+id to a successful result
+	D     *wDelivery `json:"d,omitempty"`
+	Grp   int        `json:"grp,omitempty"`   // consecutive ops with the same non-zero grp are ONE variadic call / one concurrent batch
+	Dup   bool       `json:"dup,omitempty"`   // addhandler: observed DuplicateHandlerNameError panic
+	Fails int        `json:"fails,omitempty"` // addpubdec/addsubdec: the constructor returns an error the first Fails times it is called
+	Fail  bool       `json:"fail,omitempty"`  // start: the generator expects RunHandlers to return an error (a constructor still fails)
+	Early bool       `json:"early,omitempty"` // stop: the following ops marked Win run inside the teardown window (name free, Stopped() not closed yet)
+	Win   bool       `json:"win,omitempty"`
 }
 
 type wCopy struct {
@@ -80,6 +87,8 @@ type wProgram struct {
 	Anomaly []string       `json:"anomaly"`
 	NameIDs map[string]int `json:"nameids"`
 	Skipped bool           `json:"skipped"`
+	Seq     bool           `json:"seq"`     // uses the hook runtime (forced teardown window): run alone
+	Windows int            `json:"windows"` // forced windows in which the old teardown goroutine was really parked
 }
 
 func (c *wCopy) rec(ev ...interface{}) {
@@ -140,6 +149,11 @@ func (s *fanSub) matching(topic string) []*fanSubscription {
 	defer s.mu.Unlock()
 	var r []*fanSubscription
 	for _, x := range s.subs {
+		select {
+		case <-x.done: // ended (handler stopped)
+			continue
+		default:
+		}
 		if x.topic == topic {
 			r = append(r, x)
 		}
@@ -180,6 +194,26 @@ type namedPub struct {
 }
 
 func (p *namedPub) String() string { return p.name }
+
+// the "everything else" a message context carries: one user value and cancellation.
+// Convention shared with the model (Router/Wiring.v own_ctx): produced message number m carries the
+// user value m and is cancelled iff m is even.
+type wUserKey struct{}
+
+func wOwnCtx(m int) context.Context {
+	ctx := context.WithValue(context.Background(), wUserKey{}, m)
+	if m%2 == 0 {
+		c, cancel := context.WithCancel(ctx)
+		cancel()
+		return c
+	}
+	return ctx
+}
+
+func wUser(ctx context.Context) (int, bool) {
+	v, _ := ctx.Value(wUserKey{}).(int)
+	return v, ctx.Err() != nil
+}
 
 var wBarrierTimeouts int32 // after a few timeouts the barrier is switched off (a changed router may never fill it)
 
@@ -287,6 +321,7 @@ func (r *wRun) handlerFunc(name string, fn int) message.HandlerFunc {
 			}
 			m := message.NewMessage(fmt.Sprintf("%s#%d", c.key, o), []byte(fmt.Sprintf("out %d of %s", o, c.key)))
 			m.Metadata.Set("k", strconv.Itoa(o))
+			m.SetContext(wOwnCtx(o))
 			c.mu.Lock()
 			c.produced[o] = m.Copy()
 			c.mu.Unlock()
@@ -317,6 +352,7 @@ func (r *wRun) middleware(id int, app bool) message.HandlerMiddleware {
 			}
 			if err == nil && app && c != nil {
 				m := message.NewMessage(fmt.Sprintf("%s#%d", c.key, 100+id), []byte("appended by "+strconv.Itoa(id)))
+				m.SetContext(wOwnCtx(100 + id))
 				c.mu.Lock()
 				c.produced[100+id] = m.Copy()
 				c.mu.Unlock()
@@ -353,8 +389,14 @@ func (t *tagPub) Close() error {
 	return t.inner.Close()
 }
 
-func (r *wRun) pubDecorator(id int) message.PublisherDecorator {
-	return func(p message.Publisher) (message.Publisher, error) { return &tagPub{r: r, id: id, inner: p}, nil }
+func (r *wRun) pubDecorator(id int, fails int) message.PublisherDecorator {
+	var calls int32
+	return func(p message.Publisher) (message.Publisher, error) {
+		if int(atomic.AddInt32(&calls, 1)) <= fails {
+			return nil, fmt.Errorf("scripted failure of publisher decorator %d", id)
+		}
+		return &tagPub{r: r, id: id, inner: p}, nil
+	}
 }
 
 type tagSub struct {
@@ -383,8 +425,14 @@ func (t *tagSub) Subscribe(ctx context.Context, topic string) (<-chan *message.M
 
 func (t *tagSub) Close() error { return t.inner.Close() }
 
-func (r *wRun) subDecorator(id int) message.SubscriberDecorator {
-	return func(s message.Subscriber) (message.Subscriber, error) { return &tagSub{r: r, id: id, inner: s}, nil }
+func (r *wRun) subDecorator(id int, fails int) message.SubscriberDecorator {
+	var calls int32
+	return func(s message.Subscriber) (message.Subscriber, error) {
+		if int(atomic.AddInt32(&calls, 1)) <= fails {
+			return nil, fmt.Errorf("scripted failure of subscriber decorator %d", id)
+		}
+		return &tagSub{r: r, id: id, inner: s}, nil
+	}
 }
 
 func wSame(a, b *message.Message) bool { return sameContent(a, b) }
@@ -430,7 +478,8 @@ func (r *wRun) onPublish(pubIdx int) func(int, string, []*message.Message) error
 		ids := r.outIDs(c, msgs)
 		outs := make([]interface{}, 0, len(msgs))
 		for i, m := range msgs {
-			outs = append(outs, []interface{}{ids[i], r.ctx5(m.Context())})
+			tag, cancelled := wUser(m.Context())
+			outs = append(outs, []interface{}{ids[i], r.ctx5(m.Context()), tag, cancelled})
 		}
 		c.rec("publish", pubIdx, r.in.ID(topic), outs)
 		switch c.d.Pb {
@@ -442,6 +491,34 @@ func (r *wRun) onPublish(pubIdx int) func(int, string, []*message.Message) error
 			panic("scripted publisher panic")
 		}
 	}
+}
+
+var wHookRT *hookrt.Runtime // installed only while the programs that force a teardown window run (one at a time)
+
+// tryAddHandler: AddHandler / AddNoPublisherHandler; dup = it panicked with DuplicateHandlerNameError
+func (r *wRun) tryAddHandler(router *message.Router, h *wHandler) (hd *message.Handler, dup bool) {
+	defer func() {
+		if v := recover(); v != nil {
+			if _, ok := v.(message.DuplicateHandlerNameError); ok {
+				dup = true
+			} else {
+				r.anomaly("AddHandler panicked with %v", v)
+			}
+		}
+	}()
+	switch h.PubKind {
+	case 0:
+		hd = router.AddHandler(h.Name, h.SubTopic, r.subs[h.Sub], h.PubTopic, r.pubIfs[h.Pub], r.handlerFunc(h.Name, h.Fn))
+	case 1:
+		f := r.handlerFunc(h.Name, h.Fn)
+		hd = router.AddNoPublisherHandler(h.Name, h.SubTopic, r.subs[h.Sub], func(m *message.Message) error {
+			_, err := f(m)
+			return err
+		})
+	default:
+		hd = router.AddHandler(h.Name, h.SubTopic, r.subs[h.Sub], h.PubTopic, nil, r.handlerFunc(h.Name, h.Fn))
+	}
+	return hd, false
 }
 
 func wRunProgram(p *wProgram, in *script.Interner) {
@@ -543,13 +620,13 @@ func wRunProgram(p *wProgram, in *script.Interner) {
 		case "addpubdec":
 			var ds []message.PublisherDecorator
 			for _, g := range group {
-				ds = append(ds, r.pubDecorator(g.ID))
+				ds = append(ds, r.pubDecorator(g.ID, g.Fails))
 			}
 			router.AddPublisherDecorators(ds...)
 		case "addsubdec":
 			var ds []message.SubscriberDecorator
 			for _, g := range group {
-				ds = append(ds, r.subDecorator(g.ID))
+				ds = append(ds, r.subDecorator(g.ID, g.Fails))
 			}
 			router.AddSubscriberDecorators(ds...)
 		case "start":
@@ -580,10 +657,71 @@ func wRunProgram(p *wProgram, in *script.Interner) {
 							r.anomaly("RunHandlers panicked: %v", v)
 						}
 					}()
-					if err := router.RunHandlers(ctx); err != nil {
-						r.anomaly("RunHandlers: %v", err)
+					err := router.RunHandlers(ctx)
+					if (err != nil) != o.Fail {
+						r.anomaly("RunHandlers returned %v; a failing decorator constructor expected: %v", err, o.Fail)
 					}
 				}()
+			}
+		case "stop":
+			hd := handles[o.Name]
+			if hd == nil {
+				r.anomaly("generator: stop of unknown handler %q", o.Name)
+				break
+			}
+			delete(handles, o.Name)
+			var rule *hookrt.ParkRule
+			key := fmt.Sprintf("%p/%d", r, i)
+			if o.Early && wHookRT != nil {
+				rule = wHookRT.AddRule(&hookrt.ParkRule{Point: "router.wiring.handler_removed", Keys: []string{o.Name}, Nth: 0,
+					Until: "harness.readded", UntilKeys: []string{key}, Timeout: 5 * time.Second})
+			}
+			func() {
+				defer func() {
+					if v := recover(); v != nil {
+						r.anomaly("Handler.Stop panicked: %v", v)
+					}
+				}()
+				hd.Stop()
+			}()
+			if o.Early {
+				// the window: the ops marked Win are executed as soon as the name is free, while the
+				// teardown goroutine of the old handler is parked right after delete(r.handlers, name)
+				for i < len(ops) && ops[i].Win {
+					w := ops[i]
+					i++
+					switch w.K {
+					case "addhandler":
+						deadline := time.Now().Add(wPatience)
+						for {
+							hd2, dup := r.tryAddHandler(router, w.H)
+							if !dup {
+								handles[w.H.Name] = hd2
+								break
+							}
+							if time.Now().After(deadline) {
+								r.anomaly("the name %q never became free after Stop", w.H.Name)
+								break
+							}
+							time.Sleep(200 * time.Microsecond)
+						}
+					case "addhmw":
+						if h2 := handles[w.Name]; h2 != nil {
+							h2.AddMiddleware(r.middleware(w.ID, w.App))
+						}
+					}
+				}
+				if rule != nil {
+					wHookRT.Stamp("harness.readded", key)
+				}
+			}
+			select {
+			case <-hd.Stopped():
+			case <-time.After(wPatience):
+				r.anomaly("handler %q did not stop", o.Name)
+			}
+			if rule != nil && rule.Parked > 0 && rule.TimedOut == 0 {
+				p.Windows++
 			}
 		case "deliver":
 			r.deliverBatch(group, &nDeliver)
@@ -627,6 +765,8 @@ func (r *wRun) deliverBatch(group []*wOp, nDeliver *int) {
 		}
 		if base == nil {
 			d.Chain = 0
+		} else {
+			d.UTag, d.UCancel = wUser(base.Context())
 		}
 		obs := []*wCopy{}
 		for _, sub := range r.fans[d.Sub].matching(d.Topic) {
@@ -639,6 +779,15 @@ func (r *wRun) deliverBatch(group []*wOp, nDeliver *int) {
 			} else {
 				m = message.NewMessage(fmt.Sprintf("m%d", k), []byte(fmt.Sprintf("payload %d", k)))
 				m.Metadata.Set("n", strconv.Itoa(k))
+				if d.UTag != 0 || d.UCancel {
+					uc := context.WithValue(context.Background(), wUserKey{}, d.UTag)
+					if d.UCancel {
+						cc, cancel := context.WithCancel(uc)
+						cancel()
+						uc = cc
+					}
+					m.SetContext(uc)
+				}
 			}
 			c := &wCopy{Owner: "?", key: fmt.Sprintf("m%d.c%d", k, r.nCopy), msg: m, orig: m.Copy(), produced: map[int]*message.Message{}, d: d, Trace: [][]interface{}{}}
 			d.Ctx = r.ctx5(m.Context())
@@ -717,6 +866,11 @@ type wGen struct {
 	grp     int
 	nDel    int
 	pubDels []int // delivery numbers likely to have published something
+	running bool
+	faulty  bool   // decorators registered now may have failing constructors
+	decs    []*wOp // decorator registrations, in order (pub and sub), with the remaining failures in budget
+	budget  map[int]int
+	stress  int
 }
 
 func (g *wGen) pick(n int) int { return g.rng.Intn(n) }
@@ -789,6 +943,10 @@ func (g *wGen) delivery(sub int, topic string) *wDelivery {
 		d.Outs = []int{}
 	}
 	d.Pb = g.weighted([]int{8, 1, 1})
+	if g.pick(4) == 0 {
+		d.UTag = 900 + g.pick(3) // the arriving message carries a user value of its own
+	}
+	d.UCancel = g.pick(10) == 0
 	if len(g.pubDels) > 0 && g.pick(4) == 0 {
 		d.Chain = g.pubDels[g.pick(len(g.pubDels))]
 	}
@@ -803,10 +961,75 @@ func (g *wGen) pushDelivery(d *wDelivery, grp int) {
 	g.op(&wOp{K: "deliver", D: d, Grp: grp})
 }
 
-// start + one warm-up delivery per newly started handler (so that its goroutine has taken its
-// middleware snapshot before the program goes on registering)
+// which decorator constructor fails at the next RunHandlers (nil = none): the constructors of the first
+// waiting handler are called publisher decorators last-added first, then subscriber decorators in order
+func (g *wGen) nextFailing() *wOp {
+	var pubs, subs []*wOp
+	for _, o := range g.decs {
+		if o.K == "addpubdec" {
+			pubs = append(pubs, o)
+		} else {
+			subs = append(subs, o)
+		}
+	}
+	for i := len(pubs) - 1; i >= 0; i-- {
+		if g.budget[pubs[i].ID] > 0 {
+			return pubs[i]
+		}
+	}
+	for _, o := range subs {
+		if g.budget[o.ID] > 0 {
+			return o
+		}
+	}
+	return nil
+}
+
+func (g *wGen) unstartedHandlers() []*wHandler {
+	var r []*wHandler
+	for _, h := range g.added {
+		if !g.started[h.Name] {
+			r = append(r, h)
+		}
+	}
+	return r
+}
+
+// start (retried while a decorator constructor fails) + one warm-up delivery per newly started handler
+// (so that its goroutine has taken its middleware snapshot before the program goes on registering)
 func (g *wGen) start() {
+	waiting := g.unstartedHandlers()
+	if len(waiting) > 1 {
+		// Go starts the waiting handlers in map order; which of them keeps the publisher decorators of an
+		// attempt that failed in a SUBSCRIBER decorator is then not determined: no such failures here
+		for _, o := range g.decs {
+			if o.K == "addsubdec" && g.budget[o.ID] > 0 {
+				o.Fails -= g.budget[o.ID]
+				g.budget[o.ID] = 0
+			}
+		}
+	}
+	for len(waiting) > 0 {
+		f := g.nextFailing()
+		if f == nil {
+			break
+		}
+		g.budget[f.ID]--
+		g.op(&wOp{K: "start", Fail: true})
+		switch g.pick(4) {
+		case 0: // nobody was started
+			h := waiting[g.pick(len(waiting))]
+			g.pushDelivery(g.delivery(h.Sub, h.SubTopic), 0)
+		case 1: // the lists of the moment of the SUCCESSFUL attempt count
+			g.nextID++
+			g.op(&wOp{K: []string{"addmw", "addpubdec", "addsubdec"}[g.pick(3)], ID: g.nextID})
+			if o := g.p.Ops[len(g.p.Ops)-1]; o.K != "addmw" {
+				g.decs = append(g.decs, o)
+			}
+		}
+	}
 	g.op(&wOp{K: "start"})
+	g.running = true
 	seen := map[string]bool{}
 	for _, h := range g.added {
 		if g.started[h.Name] {
@@ -819,6 +1042,51 @@ func (g *wGen) start() {
 		}
 		seen[key] = true
 		g.pushDelivery(g.delivery(h.Sub, h.SubTopic), 0)
+	}
+}
+
+// Handler.Stop of a started handler (another handler stays, or the router would close itself), usually
+// followed by a new handler under the same name with middlewares of its own; early = the re-registration
+// happens as soon as the name is free, before Stopped() is closed
+func (g *wGen) stopAndReadd() {
+	var cands []*wHandler
+	for _, h := range g.added {
+		if g.started[h.Name] {
+			cands = append(cands, h)
+		}
+	}
+	if len(g.added) < 2 || len(cands) == 0 {
+		return
+	}
+	h := cands[g.pick(len(cands))]
+	early := g.pick(2) == 0
+	g.op(&wOp{K: "stop", Name: h.Name, Early: early})
+	if early {
+		g.p.Seq = true
+	}
+	kept := g.added[:0:0]
+	for _, x := range g.added {
+		if x != h {
+			kept = append(kept, x)
+		}
+	}
+	g.added = kept
+	delete(g.started, h.Name)
+	if g.pick(4) == 0 {
+		return
+	}
+	if !early && g.pick(3) == 0 {
+		g.pushDelivery(g.delivery(h.Sub, h.SubTopic), 0) // the stopped handler receives nothing any more
+	}
+	nh := g.newHandler(h.Name)
+	if g.pick(2) == 0 {
+		nh.Sub, nh.SubTopic = h.Sub, h.SubTopic
+	}
+	g.op(&wOp{K: "addhandler", H: nh, Win: early})
+	g.added = append(g.added, nh)
+	for k := g.pick(3); k > 0; k-- {
+		g.nextID++
+		g.op(&wOp{K: "addhmw", Name: nh.Name, ID: g.nextID, App: g.pick(5) == 0, Win: early})
 	}
 }
 
@@ -866,10 +1134,14 @@ func (g *wGen) registration() {
 			g.op(&wOp{K: "addmw", ID: g.nextID, App: g.pick(5) == 0, Grp: grp})
 		case 1:
 			g.op(&wOp{K: "addhmw", Name: hname, ID: g.nextID, App: g.pick(4) == 0, Grp: grp})
-		case 2:
-			g.op(&wOp{K: "addpubdec", ID: g.nextID, Grp: grp})
 		default:
-			g.op(&wOp{K: "addsubdec", ID: g.nextID, Grp: grp})
+			o := &wOp{K: []string{"addpubdec", "addsubdec"}[kind-2], ID: g.nextID, Grp: grp}
+			if g.faulty && g.running && g.pick(2) == 0 {
+				o.Fails = 1 + g.pick(2)
+				g.budget[o.ID] = o.Fails
+			}
+			g.op(o)
+			g.decs = append(g.decs, o)
 		}
 	}
 }
@@ -886,13 +1158,18 @@ func newProgram(rng *rand.Rand, kind string) *wGen {
 	for i := 0; i < npub; i++ {
 		p.PubTy = append(p.PubTy, pubTypes[rng.Intn(len(pubTypes))])
 	}
-	return &wGen{rng: rng, p: p, started: map[string]bool{}}
+	return &wGen{rng: rng, p: p, started: map[string]bool{}, budget: map[int]int{}}
 }
 
 // random program: phases of registrations and AddHandler calls, each closed by a start and deliveries
-func genRandom(rng *rand.Rand, maxHandlers, maxRegs int) *wProgram {
-	g := newProgram(rng, "random")
+// stress: 0 = plain mix; 1 = Stop / re-add heavy; 2 = failing decorator constructors heavy
+func genRandom(rng *rand.Rand, maxHandlers, maxRegs int, stress int) *wProgram {
+	g := newProgram(rng, []string{"random", "restart", "faulty"}[stress])
+	g.stress = stress
 	phases := 1 + g.pick(3)
+	if stress > 0 {
+		phases = 2 + g.pick(2)
+	}
 	nh := 1 + g.pick(maxHandlers)
 	regs := g.pick(maxRegs + 1)
 	for ph := 0; ph < phases; ph++ {
@@ -903,6 +1180,22 @@ func genRandom(rng *rand.Rand, maxHandlers, maxRegs int) *wProgram {
 		rs := regs / phases
 		if ph == 0 {
 			rs = regs - (phases-1)*(regs/phases)
+		}
+		g.faulty = false
+		if ph > 0 {
+			if g.pick(3) == 0 || stress == 1 {
+				g.stopAndReadd()
+			}
+			if g.pick(4) == 0 || stress == 2 {
+				// a phase in which decorator constructors may fail: handlers are added to the running router
+				g.faulty = true
+				if hs == 0 {
+					hs = 1
+				}
+				if rs < 2 {
+					rs = 2 + g.pick(3)
+				}
+			}
 		}
 		// interleave hs AddHandler calls with rs registrations in a random order
 		seq := make([]int, 0, hs+rs)
@@ -1039,6 +1332,8 @@ func cmdC0809(args []string) error {
 	seqlen := fs.Int("seqlen", 6, "exhaustive registration sequences up to this length")
 	maxh := fs.Int("maxh", 6, "handlers per random program")
 	maxr := fs.Int("maxr", 20, "registrations per random program")
+	nrestart := fs.Int("restart", 60, "programs with Handler.Stop / re-added names")
+	nfaulty := fs.Int("faulty", 60, "programs with failing decorator constructors")
 	fs.Parse(args)
 	rng := rand.New(rand.NewSource(*seed))
 	in := script.NewInterner()
@@ -1065,12 +1360,21 @@ func cmdC0809(args []string) error {
 		}
 	}
 	for i := 0; i < *nrandom; i++ {
-		progs = append(progs, genRandom(rng, *maxh, *maxr))
+		progs = append(progs, genRandom(rng, *maxh, *maxr, 0))
 	}
-	// run them, a few at a time
+	for i := 0; i < *nrestart; i++ {
+		progs = append(progs, genRandom(rng, 4, 8, 1))
+	}
+	for i := 0; i < *nfaulty; i++ {
+		progs = append(progs, genRandom(rng, 4, 8, 2))
+	}
+	// run them, a few at a time; the ones that force a teardown window afterwards, one at a time
 	sem := make(chan struct{}, 8)
 	var wg sync.WaitGroup
 	for _, p := range progs {
+		if p.Seq {
+			continue
+		}
 		wg.Add(1)
 		sem <- struct{}{}
 		go func(p *wProgram) {
@@ -1084,6 +1388,21 @@ func cmdC0809(args []string) error {
 		}(p)
 	}
 	wg.Wait()
+	wHookRT = hookrt.Install(*seed)
+	wHookRT.Filter(func(point string, keys []string) bool { return strings.HasPrefix(point, "router.wiring.") })
+	for _, p := range progs {
+		if !p.Seq {
+			continue
+		}
+		if atomic.LoadInt32(&wAnomalies) > 12 {
+			p.Skipped = true
+			continue
+		}
+		wHookRT.Reset()
+		wRunProgram(p, in)
+	}
+	hookrt.Uninstall()
+	wHookRT = nil
 	for _, p := range progs {
 		p.NameIDs = map[string]int{}
 		for _, o := range p.Ops {
@@ -1092,7 +1411,7 @@ func cmdC0809(args []string) error {
 					p.NameIDs[s] = in.ID(s)
 				}
 			}
-			if o.K == "addhmw" {
+			if o.K == "addhmw" || o.K == "stop" {
 				p.NameIDs[o.Name] = in.ID(o.Name)
 			}
 			if o.D != nil {
